@@ -172,7 +172,7 @@ class Interp:
         line = self.cur_line
         if is_sym(den):
             self.side(z3real(den) != 0, 'division: denominator != 0 at %s:%d' % (self.cur_file(), line))
-        else:
+        elif den == 0:
             self.side(False, 'division by constant zero at %s:%d' % (self.cur_file(), line))
 
     def cur_file(self):
